@@ -357,6 +357,9 @@ func genC20(t *rapid.T, tier Tier) C20Case {
 		n.PresPol = rapid.IntRange(0, 4).Draw(t, "prespol") == 0 // how a stack presents itself has no say in what Reveal may unwrap
 		// read-only members (set last): Reveal leaves their content alone; whatever it does there it may not panic, deadlock or keep a lock
 		n.ReadOnly = rapid.IntRange(0, 5).Draw(t, "readonly") == 0
+		if rapid.IntRange(0, 5).Draw(t, "past?") == 0 {
+			n.Past = rapid.IntRange(1, 6).Draw(t, "past") // values that were pushed and popped again before Reveal
+		}
 		return n
 	}
 	root := genStack(0)
